@@ -37,9 +37,9 @@ Fams == {"l1", "cat", "alt", "grp", "fixed", "two"}
 \* C11: matcher-level option sets (inversion is not a matcher option) and extra families
 MatcherOptSets == {o \in OptSets : ~o.inv} \cup {[Plain EXCEPT !.nul = TRUE], [Plain EXCEPT !.ci = TRUE, !.crlf = TRUE],
                                                  [Plain EXCEPT !.word = TRUE, !.crlf = TRUE]}
-C11Fams == Fams \cup {"lf", "inner", "altlit", "nou"}
+C11Fams == Fams \cup {"lf", "inner", "innerq", "altlit", "nou", "manylf"}
 C11Seeds == {[o |-> o, fam |-> f, pats |-> <<>>, fixed |-> FALSE] : o \in MatcherOptSets, f \in C11Fams}
-C11SeedsQuick == {s \in C11Seeds : s.fam \in {"l1", "alt", "grp", "lf", "inner", "two", "altlit", "nou"}}
+C11SeedsQuick == {s \in C11Seeds : s.fam \in {"l1", "alt", "grp", "lf", "inner", "innerq", "two", "altlit", "nou", "manylf"}}
 WPlus == URep(UWCls(FALSE), 1, Inf, TRUE)
 NWStar == URep(UWCls(TRUE), 0, Inf, TRUE)
 NWPlus == URep(UWCls(TRUE), 1, Inf, TRUE)
@@ -69,7 +69,7 @@ MCPatternsOf(sd) ==
                                      URep(ULit(SA), 2, 2, TRUE), URep(ULit(SA), 12, 12, TRUE), URep(ULit(SA), 0, 2, TRUE), URep(ULit(SA), 1, 3, TRUE), UAlt(ULit(SB), UCat(ULit(SA), ULook("wb")))},
                               z \in {WPlus, URep(UDot, 0, Inf, TRUE), ULit(SB), ULook("wb"), URep(ULit(SB), 0, 1, TRUE)}}
     [] sd.fam = "innerq" -> {[sd EXCEPT !.pats = <<UCat(x, UCat(y, ULit(SB)))>>] :
-                               x \in {UCat(WPlus, ULit(SB)), ULook("wb"), ULit(SB)},
+                               x \in {UCat(WPlus, ULit(SB)), ULook("wb"), ULit(SB), UCat(ULook("wb"), ULit(SB))},
                                y \in {URep(ULit(SA), 12, 12, TRUE), URep(ULit(SA), 0, 2, TRUE), URep(ULit(SA), 2, 2, TRUE), URep(ULit(SA), 1, 3, TRUE)}}
     \* a literal, a group of alternatives of which some hold a literal and some none, a literal:  \ba(\W*A\W*|\W+)b
     [] sd.fam = "altlit" -> {[sd EXCEPT !.pats = <<UCat(x, UCat(ULit(SA), UCat(UGrp(y, TRUE), ULit(SB))))>>] :
@@ -83,6 +83,13 @@ MCPatternsOf(sd) ==
                             x \in {UCat(ULit(SA), UCat(UDot, ULit(SB))), UCls({SA}, TRUE), UCat(ULit(SA), UCls({SB}, TRUE)), UWCls(TRUE),
                                    UCat(ULit(SA), UWCls(TRUE)), URep(UDot, 1, Inf, TRUE), UCls({SA, SLF}, FALSE), UCls({SNUL, SA}, FALSE),
                                    UCat(ULit(SA), UCat(UCls({SCR, SLF, SB}, FALSE), ULit(SB))), UCls({SLF, SCR}, FALSE), UDot}}
+    \* several patterns of which only some hold the raw terminator byte (as fixed strings and as regexes without meta
+    \* characters): the set must be rejected, or no match may hold the terminator
+    [] sd.fam = "manylf" -> {[sd EXCEPT !.pats = ps, !.fixed = fx] : fx \in BOOLEAN,
+                               ps \in {<<ULit(SA), LitCat(<<SB, SLF, SA>>)>>, <<LitCat(<<SB, SLF, SA>>), ULit(SA)>>,
+                                       <<ULit(SA), ULit(SB), LitCat(<<SA, SLF>>)>>, <<LitCat(<<SLF, SB>>), ULit(SA), ULit(SB)>>,
+                                       <<ULit(SA), LitCat(<<SB, SCR, SA>>)>>, <<LitCat(<<SA, SNUL, SB>>), ULit(SB)>>,
+                                       <<LitCat(<<SA, SB>>), ULit(SLF)>>}}
     [] sd.fam = "two" -> {[sd EXCEPT !.pats = <<x, y>>] : x \in Leaves, y \in {ULit(SUA), ULit(SB), UCat(ULit(SA), ULit(SB))}}
                          \* two patterns whose texts differ only in the case of a letter
                          \cup {[sd EXCEPT !.pats = pr] : pr \in {<<UWCls(FALSE), UWCls(TRUE)>>, <<UWCls(TRUE), UWCls(FALSE)>>,
